@@ -44,7 +44,7 @@ theorem returns_seekEntry_expected : returns_seekEntry = ["emptyEntry, nil", "em
 transcribes by hand -/
 theorem fingerprints_expected : fingerprints = [
   ("entrylog.go:entryLog.allEntries", "cc215a713d8f18f1"),
-  ("entrylog.go:entryLog.AddEntries", "6cb53c6b2ab94505"),
+  ("entrylog.go:entryLog.AddEntries", "eb7ccddd52711a04"),
   ("entrylog.go:entryLog.slotGe", "044b4695e5335b53"),
   ("entrylog.go:entryLog.seekEntry", "c4831ae1a86785e1"),
   ("entrylog.go:entryLog.Term", "85244e8bf91dd983"),
@@ -74,16 +74,43 @@ theorem fingerprints_expected : fingerprints = [
   ("storage.go:RaftDiskStorage.Snapshot", "0d1cc00b754f99dd"),
   ("storage.go:RaftDiskStorage.InitialState", "713c73bda2ebcbcd"),
   ("meta.go:metaFile.StoreHardState", "878ef07c6d6d214b"),
-  ("meta.go:metaFile.StoreSnapshot", "94fcb2584b7c2598"),
+  ("meta.go:metaFile.StoreSnapshot", "81a4b42e66c6c33c"),
   ("meta.go:IsValidSnapshot", "bf693ed741e8c6b1"),
   ("meta.go:metaFile.HardState", "667a47531b9a0c0d"),
   ("meta.go:metaFile.snapshot", "e222f0eead872ced"),
-  ("file_v2.go:FileWrapV2.WriteSlice", "674ec1e9c4885762"),
+  ("file_v2.go:FileWrapV2.WriteSlice", "c15d94aa9ec78ad3"),
   ("file_v2.go:FileWrapV2.WriteAt", "e5585e9849d11c86"),
   ("file_v2.go:FileWrapV2.ReadSlice", "ae5fc280018682da"),
   ("file_v2.go:FileWrapV2.SliceSize", "2942bbc4c02d0fb1"),
   ("file_v2.go:FileWrapV2.GetEntryData", "6df5c9296231b347"),
   ("file_v2.go:OpenFileV2", "48c27bc9e4a410ff")
 ] := by rfl
+
+/-! ### the order of the file-system mutations — what `OG/C17/Crash.lean` transcribes
+
+`saveMuts = addEntriesMuts ++ hsMuts ++ snapMuts`, `addLoopMuts` = per entry `rotateMuts?`,
+`pay`, `slot`; `rotateMuts = [trunc, create, fill]`; `conflictMuts` = the later files newest
+first, then `zero`; `deleteBeforeMuts` oldest first; every `WriteSlice`/`WriteAt` is one
+`Write`; hard state and snapshot are one write each. -/
+
+theorem order_Save_expected : order_Save = ["rds.entryLog.AddEntries", "rds.meta.StoreHardState", "rds.meta.StoreSnapshot"] := by rfl
+theorem order_AddEntriesLoop_expected :
+    order_AddEntriesLoop = ["l.rotate", "l.current.entry.WriteSlice", "l.current.entry.WriteAt"] := by rfl
+theorem order_conflictRotated_expected :
+    order_conflictRotated = ["ef.delete", "l.current.entry.WriteSlice", "l.current.entry.setCurrent"] ∧
+    order_conflictDeleteLoop = "i := len(extra) - 1; i >= 0; i--" := ⟨by rfl, by rfl⟩
+theorem order_rotate_expected : order_rotate = ["l.current.entry.Truncate", "l.current.entry.TrySync", "openLogFile"] := by rfl
+theorem order_deleteBefore_expected : order_deleteBeforeLoop = "range before" := by rfl
+theorem writes_WriteSlice_expected :
+    writes_WriteSliceV2 = ["fw.fd.Seek(offset)", "fw.fd.Write(buff)"] ∧
+    writes_WriteSliceV1 = ["fw.fd.Seek(offset)", "fw.fd.Write(buff)", "fw.fd.Seek(0)"] := ⟨by rfl, by rfl⟩
+theorem writes_WriteAt_expected :
+    writes_WriteAtV2 = ["fw.fd.Seek(offset)", "fw.fd.Write(dat)"] ∧
+    writes_WriteAtV1 = ["fw.fd.Seek(offset)", "fw.fd.Write(dat)", "fw.fd.Seek(0)"] := ⟨by rfl, by rfl⟩
+theorem order_OpenFileV2_expected : order_OpenFileV2 = ["fileops.OpenFile(fpath)", "fw.Write(buff)", "fw.TrySync"] := by rfl
+theorem order_StoreHardState_expected : order_StoreHardState = ["m.meta.WriteSlice(hardStateOffset)"] := by rfl
+theorem order_StoreSnapshot_expected : order_StoreSnapshot =
+    ["m.meta.WriteAt(snapshotIndex)", "binary.BigEndian.AppendUint64(snap.Metadata.Index)",
+     "binary.BigEndian.AppendUint64(snap.Metadata.Term)", "binary.BigEndian.AppendUint32(uint32(len(buf)))", "append(buf)"] := by rfl
 
 end OG.C17.Facts
